@@ -85,9 +85,9 @@ pub fn memchrs_op(a: &[&str]) -> Option<String> {
     let (r, allocs) = alloc_probe::measure(|| -> Option<Option<usize>> {
         match a[0] {
             "swar" => slice_search!(memchr::arch::all::memchr, n, rev, sl, Some),
-            #[cfg(not(any(memchr_verif_emu_neon, memchr_verif_emu_simd128)))]
+            #[cfg(not(any(memchr_verif_emu_neon, memchr_verif_emu_simd128, memchr_verif_emu_other)))]
             "avx2" => slice_search!(memchr::arch::x86_64::avx2::memchr, n, rev, sl, |x| x),
-            #[cfg(not(any(memchr_verif_emu_neon, memchr_verif_emu_simd128)))]
+            #[cfg(not(any(memchr_verif_emu_neon, memchr_verif_emu_simd128, memchr_verif_emu_other)))]
             "sse2" => slice_search!(memchr::arch::x86_64::sse2::memchr, n, rev, sl, |x| x),
             #[cfg(memchr_verif_emu_neon)]
             "neon" => slice_search!(memchr::arch::aarch64::neon::memchr, n, rev, sl, |x| x),
@@ -107,9 +107,9 @@ pub fn memchrs_op(a: &[&str]) -> Option<String> {
     verif::set_trace(false);
     let unchecked: Option<Option<Option<usize>>> = match a[0] {
         "swar" => None,
-        #[cfg(not(any(memchr_verif_emu_neon, memchr_verif_emu_simd128)))]
+        #[cfg(not(any(memchr_verif_emu_neon, memchr_verif_emu_simd128, memchr_verif_emu_other)))]
         "avx2" => Some(slice_search_unchecked!(memchr::arch::x86_64::avx2::memchr, n, rev, sl)),
-        #[cfg(not(any(memchr_verif_emu_neon, memchr_verif_emu_simd128)))]
+        #[cfg(not(any(memchr_verif_emu_neon, memchr_verif_emu_simd128, memchr_verif_emu_other)))]
         "sse2" => Some(slice_search_unchecked!(memchr::arch::x86_64::sse2::memchr, n, rev, sl)),
         #[cfg(memchr_verif_emu_neon)]
         "neon" => Some(slice_search_unchecked!(memchr::arch::aarch64::neon::memchr, n, rev, sl)),
@@ -158,9 +158,9 @@ pub fn counts_op(a: &[&str]) -> Option<String> {
     let (r, allocs) = alloc_probe::measure(|| -> Option<usize> {
         match a[0] {
             "swar" => Some(memchr::arch::all::memchr::One::new(n1).count(sl)),
-            #[cfg(not(any(memchr_verif_emu_neon, memchr_verif_emu_simd128)))]
+            #[cfg(not(any(memchr_verif_emu_neon, memchr_verif_emu_simd128, memchr_verif_emu_other)))]
             "avx2" => memchr::arch::x86_64::avx2::memchr::One::new(n1).map(|f| f.count(sl)),
-            #[cfg(not(any(memchr_verif_emu_neon, memchr_verif_emu_simd128)))]
+            #[cfg(not(any(memchr_verif_emu_neon, memchr_verif_emu_simd128, memchr_verif_emu_other)))]
             "sse2" => memchr::arch::x86_64::sse2::memchr::One::new(n1).map(|f| f.count(sl)),
             #[cfg(memchr_verif_emu_neon)]
             "neon" => memchr::arch::aarch64::neon::memchr::One::new(n1).map(|f| f.count(sl)),
